@@ -51,14 +51,16 @@ CLAIMED["C02"] = dict(
     design="3/C02")
 CLAIMED["C05"] = dict(
     text=("Build model with a failure oracle and the in-build flag: on failure at node k the log is exactly "
-          "what completed before, k is reachable, the input heap is unchanged and the flag is reset; evaluated "
+          "what completed before, k is reachable, the input heap is unchanged and the flag is reset; the path named "
+          "by the escaping exception (first path to the failing Buildable in traversal order) is proved to lead "
+          "from the root to it, and the path printed in the real message must equal it; evaluated "
           "in Coq with every Config node of every generated DAG as crash point (fault enumeration) against "
           "the implementation's invocation log; the oracle checks exception class, message prefix, that the "
           "reported path leads to the failing Buildable, no later invocation, configuration unchanged, next "
           "build normal, nested build rejected, for 10 exception-class shapes."),
     note=COMMON_NOTE + " Exception-class proxying (ExceptionProxy) is Python runtime behaviour decided by the "
-         "harness oracle only. Known findings: StopIteration -> RuntimeError; path through a **kwargs entry "
-         "named like a positional-only parameter.",
+         "harness oracle only. (Both earlier findings are repaired: StopIteration -> RuntimeError by 8f83903, the "
+         "path through a **kwargs entry named like a positional-only parameter by 49137ca.)",
     technique="Coq proof (failure prefix / purity / flag) + fault enumeration correspondence",
     design="3/C05")
 
@@ -163,12 +165,19 @@ CLAIMED["C09"] = dict(
           "import_symbol imports only symbols the policy approved and returns only approved values. At the graph "
           "level (de)serialization is the memoized copy of C07 (proved faithful and disjoint); in Coq the input "
           "graph, the graph an independent reader finds in the JSON document and the reconstruction are checked "
-          "isomorphic to the model's copy. The oracle checks strict-JSON validity, types/leaves/callables/tags/"
+          "isomorphic to the model's copy. Document level (Doc.v): the JSON document is an object table (one entry "
+          "per memoizable object, written after its items, referred to by position); proved: a written document "
+          "loaded and written again is literally the same document (ser is a fixed point on its output), "
+          "totality, well-formedness, compactness (exactly one entry per reachable object, no garbage), the entry "
+          "order (children first, injective), isomorphism with the input and the meaning of the refcounts field; "
+          "the real document is compared entry by entry (described object, refcount, printed paths) with the "
+          "model, and re-loaded / re-dumped inside Coq. The oracle checks strict-JSON validity, types/leaves/callables/tags/"
           "sharing/unset-ness after the round trip, identical re-dump up to set order, that no configured "
           "callable runs and every import was approved by a recording policy, also on mutated documents; the "
           "bytes codec is swept exhaustively over short strings."),
     note=COMMON_NOTE + " json, importlib trusted. Known finding: inf/nan leaves are written as Infinity/NaN "
-         "(not strict JSON). Object naming, the 'paths' debugging field and metadata encoding are not modelled.",
+         "(not strict JSON). Object names (position in the table is modelled, the hint text is not) and the encoding of "
+         "traverser metadata objects are not modelled.",
     technique="Coq proof (codec bijection, policy gate, copy faithfulness) + vm_compute correspondence on documents",
     design="3/C09")
 
@@ -190,7 +199,8 @@ CLAIMED["C20"] = dict(
 
 CLAIMED["C17"] = dict(
     text=("Heap-effect discipline: every modelled read-only or copy-returning API (build, deepcopy / pickle copy, "
-          "identity rebuild, with_defaults_trimmed, partial simplification, materialize_tags, clear_argument_history) "
+          "identity rebuild, with_defaults_trimmed, partial simplification, materialize_tags, clear_argument_history, "
+          "the diff builder, serialization) "
           "is an instance of the memoized traversal, for which it is proved once, generically, that the input heap "
           "is a prefix of the output heap (only appends); the frame property is re-evaluated in Coq on every "
           "generated configuration. The sweep runs 48 entry points (printing, rendering, serialization, diffing, "
